@@ -256,15 +256,21 @@ def r4_csv(ctx):
         mode = [b for n in walk_no_nested(jp.node) if isinstance(n, ast.Assign) for b in [mstmt(
             "[V_osnr, V_baud, V_bit, V_cost] = next(([V_m['OSNR'], round(V_m['baud_rate'] * 1e-09, 2), round(V_m['bit_rate'] * 1e-09, 2), V_m['cost']] "
             f"for V_m in {EQ}['Transceiver'][{jp.params[1]}].mode if V_m['format'] == {jp.params[2]}))", n)] if b]
-        joins = {n.targets[0].id: n.value.args[0].id for n in walk_no_nested(jp.node) if isinstance(n, ast.Assign) and isinstance(n.targets[0], ast.Name)
-                 and mexpr("' | '.join(V_t)", n.value) is not None}
+        # name -> what is joined with ' | ' (a local list, or the list written in place)
+        joins = {n.targets[0].id: n.value.args[0] for n in walk_no_nested(jp.node) if isinstance(n, ast.Assign) and isinstance(n.targets[0], ast.Name)
+                 and mexpr("' | '.join(E_t)", n.value) is not None}
         ok = len(mode) == 1 and len(joins) == 2
         if ok:
             b = mode[0]
             jdefs = local_defs(jp.node)
-            hops = [nm for nm, src in joins.items() if any("['num-unnum-hop']['node-id']" in ast.unparse(c) for c in calls_to(jp, {'append'})
-                                                            if ast.unparse(c.func.value) == src) or
-                    any(isinstance(v, ast.ListComp) and "['num-unnum-hop']['node-id']" in ast.unparse(v.elt) for _, v in jdefs.get(src, []))]
+
+            def is_hops(src):
+                if isinstance(src, ast.Name):
+                    return any("['num-unnum-hop']['node-id']" in ast.unparse(c) for c in calls_to(jp, {'append'})
+                               if ast.unparse(c.func.value) == src.id) or \
+                        any(isinstance(v, ast.ListComp) and "['num-unnum-hop']['node-id']" in ast.unparse(v.elt) for _, v in jdefs.get(src.id, []))
+                return isinstance(src, ast.ListComp) and "['num-unnum-hop']['node-id']" in ast.unparse(src.elt)
+            hops = [nm for nm, src in joins.items() if is_hops(src)]
             labs = [nm for nm in joins if nm not in hops]
             ok = len(hops) == 1 and len(labs) == 1
             if ok:
